@@ -41,11 +41,21 @@ COPY_CALLS = {'dict', 'list', 'tuple', 'set', 'frozenset', 'sorted', 'copy', 'de
 ALIASED_MUTABLE_ATTRS = {'methods', 'bound_apps', 'resources', 'middlewares', 'converters', 'path_args', 'endpoint_args'}
 
 
-def fresh_container(fl, fi, leaf):
+def fresh_container(fl, fi, leaf, repo=None):
+    """The value is a container allocated here: constructor / copy call, display, comprehension, concatenation, or the
+    fresh result of an analysed helper.  A value handed out by an analysed helper that could not be followed is an
+    analysis gap, not a judgement."""
     v = leaf.value
-    if leaf.opaque:
+    if leaf.opaque or (isinstance(v, ast.Call) and repo is not None and effects.callee_of(repo, fi, v) is not None):
+        call = v if isinstance(v, ast.Call) else None
+        callee = effects.callee_of(repo, fi, call) if (call is not None and repo is not None) else None
+        if callee is not None:
+            if not leaf.opaque and effects.returns_fresh(repo, callee):
+                return True
+            raise AnalysisError('%s: value computed by %s could not be followed' % (fi.qualname, callee.qualname))
         return False
-    if isinstance(v, ast.Call) and call_name(v) in COPY_CALLS:
+    if isinstance(v, ast.Call) and (call_name(v) in COPY_CALLS or (call_tail(v) in ('copy', 'deepcopy') and not v.args or
+                                                                  call_name(v) in ('copy.copy', 'copy.deepcopy'))):
         return True
     return isinstance(v, (ast.BinOp, ast.Dict, ast.List, ast.Set, ast.ListComp, ast.DictComp, ast.SetComp))
 
@@ -190,8 +200,8 @@ def run(rep):
             stores = fl.defs.get('self.%s' % attr, [])
             if not stores:
                 lv = []
-            ok = bool(lv) and all(fresh_container(fl, fi, l) for l in lv)
-            bad = [l for l in lv if not fresh_container(fl, fi, l)]
+            ok = bool(lv) and all(fresh_container(fl, fi, l, repo) for l in lv)
+            bad = [l for l in lv if not fresh_container(fl, fi, l, repo)]
             rep.check('R11.a', fkey(fi, 'self.%s is a copy' % attr), ok, 'self.%s = %s (fresh container)' % (attr, ' | '.join(short(l.value, 50) for l in lv)) if ok else
                       '%s: self.%s aliases a container of %s: %s' % (fi.qualname, attr, who, [short(l.value) for l in bad] or 'never assigned'), mod_,
                       (bad[0].stmt if bad and isinstance(bad[0].stmt, ast.AST) else None) or (stores[-1].stmt if stores else fi.node))
@@ -440,7 +450,7 @@ def run(rep):
         dp = repo.mod('clastic.meta').func('MetaApplication.__init__')
         dfl = Flow(dp)
         lv = dfl.leaves(ast.parse('self.peripherals', mode='eval').body, 'exit') if dfl.defs.get('self.peripherals') else []
-        ok = bool(lv) and all(fresh_container(dfl, dp, l) for l in lv)
+        ok = bool(lv) and all(fresh_container(dfl, dp, l, repo) for l in lv)
         rep.check('R11.d', fkey(dp, 'DEFAULT_PERIPHERALS copied'), ok, 'the shared default peripheral list is copied per MetaApplication' if ok else
                   'MetaApplication extends the shared DEFAULT_PERIPHERALS list in place', repo.mod('clastic.meta'), dp.node)
     rep.guard(r11d)
